@@ -432,8 +432,13 @@ func (l *LockServer) DestroySession(ctx context.Context) (sessionId string) {
 		"num_locks", len(locks),
 	)
 
-	// For each lock, unlock it and remove it from the lockTimerMgr
+	// For each lock, remove it from the lockTimerMgr and unlock it. The timer is removed first (as
+	// Unlock() does) so that a lock that has been unlocked here can no longer be renewed.
 	for _, lk := range locks {
+		if stopped := l.lockTimerMgr.Remove(timerKey(lk.Name(), lk.Key())); !stopped {
+			// The timer was not stopped before firing, so it unlocks the lock.
+			continue
+		}
 		if unlocked, err := l.lockMgr.Unlock(lk.Name(), lk.Key()); err != nil || !unlocked {
 			ctxLog.Error(
 				"Error unlocking lock during client session cleanup",
@@ -447,7 +452,6 @@ func (l *LockServer) DestroySession(ctx context.Context) (sessionId string) {
 				"Unlocked during client session cleanup",
 				"lock", lk.Name(),
 			)
-			l.lockTimerMgr.Remove(timerKey(lk.Name(), lk.Key()))
 		}
 	}
 
